@@ -610,10 +610,13 @@ __find_zrng(const struct zif_s z[static 1U], int32_t t, int min, int max)
 		/* assume the first offset has always been there */
 		res.next = res.prev;
 	} else if (UNLIKELY(trno < 0)) {
-		/* special case where no transitions are recorded */
+		/* before the first transition, or no transitions recorded,
+		 * that's where the first local time type applies */
 		res.trno = 0U;
 		res.prev = INT_MIN;
-		res.next = INT_MAX;
+		res.next = zif_ntrans(z) ? zif_trans(z, 0) : INT_MAX;
+		res.offs = zif_troffs(z, -1);
+		return res;
 	} else {
 		res.trno = (uint8_t)trno;
 		if (LIKELY(trno + 1U < zif_ntrans(z))) {
@@ -655,8 +658,13 @@ __offs(struct zif_s z[static 1U], int32_t t)
 	if (LIKELY(t >= z->cache.prev && t < z->cache.next)) {
 		/* use the cached offset */
 		return z->cache.offs;
+	} else if (z->cache.prev >= z->cache.next) {
+		/* nothing cached yet, search them all */
+		min = 0;
+		max = zif_ntrans(z);
 	} else if (t >= z->cache.next) {
-		min = z->cache.trno + 1;
+		/* the range before the first transition has trno 0 as well */
+		min = z->cache.trno + (z->cache.prev > INT_MIN);
 		max = zif_ntrans(z);
 	} else if (t < z->cache.prev) {
 		max = z->cache.trno;
